@@ -35,16 +35,18 @@ theorem tie_sub (i : I) (k : Rat) : Gen.Interval_sub i k = sub i k := by
 theorem tie_mul (i : I) (k : Rat) : Gen.Interval_mul i k = mul i k := by
   unfold Gen.Interval_mul mul
   by_cases h : 0 < k
-  · simp only [gt_iff_lt, h, decide_true, if_true]; unfold mk; split <;> rfl
-  · simp only [gt_iff_lt, h, decide_false, Bool.false_eq_true, if_false]; unfold mk; split <;> rfl
+  · simp only [gt_iff_lt, h, decide_true, if_true]
+  · simp only [gt_iff_lt, h, decide_false, Bool.false_eq_true, if_false]
 
 theorem tie_truediv (i : I) (k : Rat) : Gen.Interval_truediv i k = div i k := by
   unfold Gen.Interval_truediv div
   by_cases h0 : k = 0
-  · subst h0; simp [CR.Py.div]; rfl
+  · subst h0; simp [CR.Py.div, bind, Except.bind]
   · by_cases h : 0 < k
-    · simp only [gt_iff_lt, h, decide_true, if_true, h0, if_false, CR.Py.div]; unfold mk; split <;> rfl
-    · simp only [gt_iff_lt, h, decide_false, Bool.false_eq_true, if_false, h0, CR.Py.div]; unfold mk; split <;> rfl
+    · simp only [gt_iff_lt, h, decide_true, if_true, h0, if_false, CR.Py.div]; unfold mk
+      split <;> simp_all [bind, Except.bind, pure, Except.pure]
+    · simp only [gt_iff_lt, h, decide_false, Bool.false_eq_true, if_false, h0, CR.Py.div]; unfold mk
+      split <;> simp_all [bind, Except.bind, pure, Except.pure]
 
 theorem tie_length (i : I) : Gen.Interval_length i = length i := rfl
 
@@ -72,7 +74,7 @@ theorem fmod_fix_eq_wrap {τ : Rat} (hτ : 0 < τ) (x : Rat) :
     have hc2 : (x / τ).ceil ≤ (x / τ).floor + 1 := by
       rw [Rat.ceil_le_iff]; push_cast; exact le_of_lt (by push_cast at hlt; exact hlt)
     have hc3 : (x / τ).floor ≤ (x / τ).ceil := by
-      rw [Rat.le_floor_iff.symm.trans Iff.rfl |>.symm] <;> first | exact le_trans hfl hc1 | skip
+      exact_mod_cast le_trans hfl hc1
     have hw0 := wrap_nonneg hτ x
     have hw1 := wrap_lt hτ x
     rw [wrap_eq] at hw0 hw1
@@ -112,9 +114,9 @@ theorem tie_angle_contains_interval (τ ε : Rat) (hτ : 0 < τ) (i j : I) :
   rw [← fmod_fix_eq_wrap hτ]
   by_cases h : CR.Py.fmod (j.lo - i.lo) τ < 0
   · simp only [h, decide_true, if_true, Id.run, ge_iff_le]
-    by_cases h2 : τ - ε ≤ CR.Py.fmod (j.lo - i.lo) τ + τ <;> simp [h2]
+    by_cases h2 : τ - ε ≤ CR.Py.fmod (j.lo - i.lo) τ + τ <;> simp [h2, pure]
   · simp only [h, decide_false, Bool.false_eq_true, if_false, Id.run, ge_iff_le]
-    by_cases h2 : τ - ε ≤ CR.Py.fmod (j.lo - i.lo) τ <;> simp [h2]
+    by_cases h2 : τ - ε ≤ CR.Py.fmod (j.lo - i.lo) τ <;> simp [h2, pure]
 
 theorem tie_loop_down (τ : Rat) : ∀ (n : Nat) (x : Rat), Gen.make_valid_orientation.loop1 τ n x = downLoop n τ x
   | 0, x => rfl
@@ -130,7 +132,7 @@ theorem tie_loop_up (τ : Rat) : ∀ (n : Nat) (x : Rat), Gen.make_valid_orienta
 
 theorem tie_make_valid (τ x : Rat) : Gen.make_valid_orientation τ (fuelFor τ x) x = makeValid τ x := by
   unfold Gen.make_valid_orientation makeValid
-  simp [Id.run, tie_loop_down, tie_loop_up]
+  simp [Id.run, tie_loop_down, tie_loop_up, pure]
 
 theorem tie_loop_down2 (τ : Rat) : ∀ (n : Nat) (s e : Rat),
     Gen.make_valid_orientation_interval.loop1 τ n e s = ((downLoop2 n τ s e).2, (downLoop2 n τ s e).1)
@@ -151,8 +153,8 @@ theorem tie_loop_up2 (τ : Rat) : ∀ (n : Nat) (s e : Rat),
     by_cases h : s < -τ ∨ s < -τ
     · have : (decide (s < -τ) || decide (s < -τ)) = true := by simpa using h
       simp only [this, if_true, h, tie_loop_up2 τ n]
-    · have : (decide (s < -τ) || decide (s < -τ)) = false := by simpa using h
-      simp [this, h]
+    · have hs : ¬ s < -τ := fun hc => h (Or.inl hc)
+      simp [hs]
 
 theorem tie_make_valid_interval (τ s e : Rat) :
     Gen.make_valid_orientation_interval τ ((fuelFor τ s + fuelFor τ e) + (fuelFor τ s + fuelFor τ e)) s e
